@@ -1074,3 +1074,13 @@ V("golomb-free-marks-inside-guard", "neutral", ["C15", "C16"], GO, None, None, "
   edits=[{"old": "        for j in range(0, mark_nb - ni_var_idx):\n", "new": "        free_mark_nb = mark_nb - ni_var_idx\n        for j in range(0, free_mark_nb):\n"}])
 V("domain-stack-widened", "neutral", ["C01", "C13", "C19"], BS, "        self.shr_domains_stack = np.empty((stack_max_height, self.problem.shr_domain_nb, 2), dtype=np.int32)\n",
   "        self.shr_domains_stack = np.empty((stack_max_height, self.problem.shr_domain_nb, 2), dtype=np.int64)\n", "the domain stack alone widened to 64 bits (R-VALUE-WIDTH: only a narrower carrier loses something)")
+# ---- R-STATUS-EXHAUSTIVE (round 6, C19-x3)
+V("shaving-answers-stack-full", "break", ["C19", "C02", "C10"], SH, None, None, "shaving reports 'no free level' through a new status that solve_one's dispatch does not name (the node is abandoned as a failure)",
+  "shaving_consistency_algorithm", expect_rule="R-STATUS-EXHAUSTIVE",
+  edits=[{"old": "        if stacks_top[0] >= len(shr_domains_stack) - 1:  # no room left for the temporary choice point of a probe\n            break\n",
+          "new": "        if stacks_top[0] >= len(shr_domains_stack) - 1:  # no room left for the temporary choice point of a probe\n            return PROBLEM_STACK_FULL\n"},
+         {"old": "    PROBLEM_UNBOUND,\n", "new": "    PROBLEM_STACK_FULL,\n    PROBLEM_UNBOUND,\n"}],
+  also=[{"file": "nucs/constants.py", "edits": [{"old": "PROBLEM_BOUND = 2  # returned when a problem is solved\n", "new": "PROBLEM_BOUND = 2  # returned when a problem is solved\nPROBLEM_STACK_FULL = 3\n"}]}])
+V("shaving-full-stack-returns-unbound", "neutral", ["C19", "C02", "C10", "C04"], SH, None, None, "the same exit written as an explicit return of PROBLEM_UNBOUND",
+  edits=[{"old": "        if stacks_top[0] >= len(shr_domains_stack) - 1:  # no room left for the temporary choice point of a probe\n            break\n",
+          "new": "        if stacks_top[0] >= len(shr_domains_stack) - 1:  # no room left for the temporary choice point of a probe\n            return PROBLEM_UNBOUND\n"}])
